@@ -74,3 +74,11 @@ let words s = List.filter (fun w -> w <> "") (String.split_on_char ' ' s)
 
 let iter_lines (ic : in_channel) (f : string -> unit) =
   try while true do f (input_line ic) done with End_of_file -> ()
+
+(* "name(1,2)" -> ("name", [1;2]) ; "name" -> ("name", []) *)
+let split_op_ints (s : string) : string * int list =
+  match String.index_opt s '(' with
+  | Some i ->
+    let inner = String.sub s (i + 1) (String.length s - i - 2) in
+    (String.sub s 0 i, List.map int_of_string (split_on ',' inner))
+  | None -> (s, [])
